@@ -431,6 +431,14 @@ var progress atomic.Uint64
 func exec(line string) string {
 	lastOp.Store(line)
 	defer progress.Add(1)
+	if f := strings.Fields(line); len(f) > 0 && isClientOp(f[0]) {
+		res := vx.Guard(func() string { _, r := cexec(line); return r })
+		if ccur != nil && len(ccur.verdict) > 0 && !strings.HasPrefix(line, "chk") && res != "panic" {
+			res = "FAIL " + strings.Join(ccur.verdict, " / ") + " ; " + res
+			ccur.verdict = nil
+		}
+		return res
+	}
 	out := exec1(line)
 	if cur != nil && len(cur.verdict) > 0 && !strings.HasPrefix(line, "chk") && !strings.HasPrefix(out, "panic") {
 		out = "FAIL " + strings.Join(cur.verdict, " / ") + " ; " + out
@@ -1142,6 +1150,8 @@ func main() {
 		}
 	}
 	if run.Replay != "" {
+		leakAfter = 300 * time.Millisecond
+		hardLimit = 4 * time.Second // replays (shrinking) may leave a Commit queued behind a lock nobody releases
 		for _, l := range run.ReplayLines() {
 			do(l)
 		}
@@ -1195,6 +1205,15 @@ func main() {
 		}
 		g.walk(r.Fork(), mode)
 	}
+	// (c) the scheduler driven through the real KVTxn.Commit
+	nc := 40
+	if run.Thorough() {
+		nc = 300
+	}
+	for i := 0; i < nc; i++ {
+		g.clientCase(r.Fork())
+	}
+	ccur.close()
 	// (b) the real scheduler goroutine
 	ns := 30
 	if run.Thorough() {
